@@ -1,10 +1,140 @@
 import NxProofs.RmcServer
+/-!
+# C11 — an RMC server answers every request exactly once with the right outcome
+
+Model: `NxModel/Nex/RmcServer.lean` — `react` mirrors `RMCClient.handle_request`, `serve` the receive loop
+over a request sequence, `generatedHandle` the `handle()` / `handle_<method>` code that
+`generate_protocols.py` emits (tables translated from the generated modules on every run).
+Responses are stated as the *reference framing* of C09 (`Rmc.specEncode`), so "carries the request's
+protocol and call id" is a statement about the bytes on the wire (`Nx.C09.rmc_reference_accepted`
+decodes them back).
+
+Quantifier of the property = `ReqWF` (fields as `RMCMessage.decode` yields them) + `Answerable`:
+the handler returned (method id < 2^15 as every generated id is — generated obligation `method_ids_fit` —
+and an output that fits a u32 length), or raised an RMC error whose code is a u32 with bit 31 (what
+`RMCError(code)` yields for every code of the table), or raised any `Exception`.
+Outside it (stated, not hidden): a `BaseException` that is no `Exception`, or an `RMCError` whose code does
+not fit 32 bits, leaves `handle_request` and ends the loop — `not_answered_examples`.
+Statements only; proofs in `NxProofs/RmcServer.lean`.
+-/
 namespace Nx.C11
 open Nx Nx.Rmc Nx.RmcServer
 
-theorem unknown_protocol_not_implemented (servers : Registry) (req : Msg) (h : HandleResult)
-    (hp : regLookup req.protocol servers = none) :
-    react servers req h = sendMsg (responseMsg req (errorResult coreNotImplemented) []) :=
-  react_unknown_protocol servers req h hp
+/-- exactly one response, carrying the request's protocol and call id — or none iff the protocol is NORESPONSE -/
+theorem one_response (servers : Registry) (req : Msg) (m : Nat) (w : ReqWF req m) (h : HandleResult)
+    (ha : Answerable m h) :
+    (regLookup req.protocol servers = some true ∧ react servers req h = .silent) ∨
+    (regLookup req.protocol servers ≠ some true ∧
+      ∃ data msg, react servers req h = .sends data ∧ decode data = .ok msg ∧
+        msg.mode = 1 ∧ msg.protocol = req.protocol ∧ msg.callId = req.callId) := by
+  rcases react_answer (servers := servers) w h ha with hl | ⟨hn, s, hwf, hs, h1, h2, h3⟩
+  · exact .inl hl
+  · exact .inr ⟨hn, specEncode s, ofSpec s, hs, decode_specEncode s hwf, h1, h2, h3⟩
+
+/-- the outcome table for a registered protocol that is not response-less -/
+theorem outcome_table (servers : Registry) (req : Msg) (m : Nat) (w : ReqWF req m)
+    (hp : regLookup req.protocol servers = some false) :
+    (∀ out : Bytes, m < 32768 → out.length + 12 < 4294967296 →
+      react servers req (.returned out) = .sends (specEncode (.success req.protocol req.callId m out))) ∧
+    (∀ code : Nat, 2147483648 ≤ code → code < 4294967296 →
+      react servers req (.raised (.rmcError code)) = .sends (specEncode (.failure req.protocol req.callId code))) ∧
+    react servers req (.raised .typeError) = .sends (specEncode (.failure req.protocol req.callId 0x80040002)) ∧
+    react servers req (.raised .indexError) = .sends (specEncode (.failure req.protocol req.callId 0x80040003)) ∧
+    react servers req (.raised .memoryError) = .sends (specEncode (.failure req.protocol req.callId 0x80040006)) ∧
+    react servers req (.raised .keyError) = .sends (specEncode (.failure req.protocol req.callId 0x80040007)) ∧
+    react servers req (.raised .other) = .sends (specEncode (.failure req.protocol req.callId 0x80040001)) :=
+  ⟨fun out hm hb => react_returned w hp out hm hb, fun c h1 h2 => react_rmcError w hp c h1 h2, react_py w hp⟩
+
+/-- an unknown protocol is answered `Core::NotImplemented`, whatever else is going on -/
+theorem unknown_protocol_not_implemented (servers : Registry) (req : Msg) (m : Nat) (w : ReqWF req m)
+    (hp : regLookup req.protocol servers = none) (h : HandleResult) :
+    react servers req h = .sends (specEncode (.failure req.protocol req.callId 0x80010002)) :=
+  react_unregistered w hp h
+
+/-- generated dispatch: an unknown method id, an unsupported method and an unimplemented (stub) method
+    all end in `RMCError("Core::NotImplemented")`, hence (by `outcome_table`) in error 0x80010002 -/
+theorem not_implemented_dispatch (srv : Server) (mid : Nat) (ex : Option Exc) (u : User) :
+    (findMethod mid srv.methods = none → generatedHandle srv mid ex u = notImplemented) ∧
+    (∀ mt, findMethod mid srv.methods = some mt → mt.supported = false → generatedHandle srv mid ex u = notImplemented) ∧
+    (∀ mt, findMethod mid srv.methods = some mt → mt.supported = true → generatedHandle srv mid none .stub = notImplemented) :=
+  ⟨gen_unknown_method srv mid ex u, fun mt h hs => gen_unsupported srv mid ex u mt h hs, fun mt h hs => gen_stub srv mid mt h hs⟩
+
+theorem not_implemented_response (servers : Registry) (req : Msg) (m : Nat) (w : ReqWF req m)
+    (hp : regLookup req.protocol servers = some false) :
+    react servers req notImplemented = .sends (specEncode (.failure req.protocol req.callId 0x80010002)) :=
+  react_rmcError w hp 0x80010002 (by decide) (by decide)
+
+/-- generated dispatch of a known, supported method: reading past the end of the body (or any other failure
+    while extracting the parameters) is the handler's exception; otherwise the user's exception, or — for a
+    well-typed result — whatever encoding it yields; a wrongly typed / incomplete result is a `RuntimeError` -/
+theorem dispatch_supported (srv : Server) (mid : Nat) (mt : Method)
+    (h : findMethod mid srv.methods = some mt) (hs : mt.supported = true) :
+    (∀ e u, generatedHandle srv mid (some e) u = .raised e) ∧
+    (∀ e, generatedHandle srv mid none (.raises e) = .raised e) ∧
+    (∀ enc, generatedHandle srv mid none (.returns .good enc) = if mt.resp = .none then .returned [] else enc) ∧
+    (∀ sh enc, sh ≠ .good → (mt.resp = .single false ∨ mt.resp = .multi) →
+      generatedHandle srv mid none (.returns sh enc) = .raised .other) :=
+  ⟨fun e u => gen_extract_fails srv mid e u mt h hs, fun e => gen_raises srv mid e mt h hs,
+   fun enc => gen_returns_good srv mid enc mt h hs, fun sh enc hsh hr => gen_returns_bad srv mid enc mt sh h hs hsh hr⟩
+
+/-- with distinct method ids (generated obligation `method_ids_distinct`) every table entry is reachable
+    under its own id, and a lookup only ever yields an entry with the requested id -/
+theorem dispatch_reaches_every_method (srv : Server) (hd : srv.methodIdsDistinct = true) (mt : Method)
+    (hm : mt ∈ srv.methods) : findMethod mt.id srv.methods = some mt :=
+  findMethod_of_mem hd hm
+
+theorem dispatch_only_own_id (srv : Server) (mid : Nat) (mt : Method) (h : findMethod mid srv.methods = some mt) :
+    mt ∈ srv.methods ∧ mt.id = mid :=
+  findMethod_some h
+
+/-- a response-less protocol is never answered -/
+theorem noresponse_silent (servers : Registry) (req : Msg) (hp : regLookup req.protocol servers = some true)
+    (h : HandleResult) (hb : h ≠ .raised .base) : react servers req h = .silent :=
+  react_noresponse hp h hb
+
+/-- any sequence of answerable requests is answered request by request, each exactly as if it were alone:
+    a failing handler neither ends the loop nor affects later requests -/
+theorem C11_sequence (servers : Registry) (reqs : List (Msg × HandleResult))
+    (hall : ∀ x ∈ reqs, ∃ m, ReqWF x.1 m ∧ Answerable m x.2) :
+    serve servers reqs = reqs.map (fun x => react servers x.1 x.2) ∧
+    Reaction.propagates ∉ serve servers reqs := by
+  refine ⟨serve_eq_map servers reqs hall, ?_⟩
+  rw [serve_eq_map servers reqs hall]
+  intro hmem
+  obtain ⟨x, hx, he⟩ := List.mem_map.mp hmem
+  obtain ⟨m, w, ha⟩ := hall x hx
+  exact react_ne_propagates w x.2 ha he
+
+/-- what was answered before does not change what is answered next (`handle_request` assigns to nothing) -/
+theorem server_state_unchanged (servers : Registry) (before after : List (Msg × HandleResult))
+    (hb : ∀ x ∈ before, ∃ m, ReqWF x.1 m ∧ Answerable m x.2) :
+    serve servers (before ++ after) = serve servers before ++ serve servers after :=
+  serve_append servers before after hb
+
+/-- outside the quantifier: these end the receive loop instead of being answered -/
+theorem not_answered_examples :
+    react [(10, false)] { mode := 0, protocol := 10, method := some 1, callId := 7, error := -1, body := [] }
+      (.raised .base) = .propagates ∧
+    react [(10, false)] { mode := 0, protocol := 10, method := some 1, callId := 7, error := -1, body := [] }
+      (.raised (.rmcError 0x180000000)) = .propagates := by
+  decide
+
+/-! non-vacuity -/
+example : ReqWF { mode := 0, protocol := 0x7F, method := some 5, callId := 4294967295, error := -1, body := [1] } 5 :=
+  ⟨by decide, by decide, rfl⟩
+example : Answerable 5 (.returned [1, 2, 3]) := by simp [Answerable]
+example : Answerable 5 (.raised (.rmcError 0x80030065)) := by simp [Answerable]
+example : Answerable 0xFFFFFFFF (.raised .keyError) := by simp [Answerable]
+example : react [(10, false), (14, true)]
+    { mode := 0, protocol := 10, method := some 2, callId := 9, error := -1, body := [] } (.raised .keyError)
+    = .sends [10, 0, 0, 0, 10, 0, 7, 0, 4, 0x80, 9, 0, 0, 0] := by decide
+example : react [(10, false), (14, true)]
+    { mode := 0, protocol := 14, method := some 1, callId := 9, error := -1, body := [] } (.returned []) = .silent := by decide
+example : generatedHandle { protocol := 10, noresponse := false, methods := [{ id := 1, supported := true, resp := .single false }] }
+    1 (some .other) .stub = .raised .other := by decide
+example : serve [(10, false)]
+    [({ mode := 0, protocol := 10, method := some 2, callId := 1, error := -1, body := [] }, .raised .typeError),
+     ({ mode := 0, protocol := 11, method := some 2, callId := 2, error := -1, body := [] }, .returned [])]
+    = [.sends [10, 0, 0, 0, 10, 0, 2, 0, 4, 0x80, 1, 0, 0, 0], .sends [10, 0, 0, 0, 11, 0, 2, 0, 1, 0x80, 2, 0, 0, 0]] := by decide
 
 end Nx.C11
